@@ -130,7 +130,7 @@ class H:
     def __init__(self, hid, rng, bf=None, fmt=None, kind=None, vt=None, cache=None, wide=None, bfs=BFS_SMALL, opts=None):
         self.id, self.rng = hid, rng
         self.bf = bf if bf is not None else rng.choice(bfs)
-        self.fmt = fmt or rng.choice(["bin", "bin", "v1"])
+        self.fmt = fmt or rng.choice(["bin", "bin", "v1", "v1", "def"])   # def: options that name no node format
         self.kind = kind if kind is not None else rng.choice([0, 0, 1, 2, 3, 4, 5, 5])
         self.vt = vt or rng.choice(["raw", "raw", "int", "str", "ints", "pst"])
         self.cache = cache or rng.choice(["none", "none", "big", "tiny"])
